@@ -208,13 +208,21 @@ enum CompressionCodec {
 	Zstandard,
 }
 
+impl Default for CompressionCodec {
+	fn default() -> Self {
+		CompressionCodec::Null
+	}
+}
+
 const HEADER_CONST: [u8; 4] = [b'O', b'b', b'j', 1u8];
 
 #[derive(serde_derive::Deserialize, serde_derive::Serialize)]
 struct Metadata<S, M> {
 	#[serde(rename = "avro.schema")]
 	schema: S,
-	#[serde(rename = "avro.codec")]
+	/// "avro.codec: the name of the compression codec used to compress blocks,
+	/// as a string. [...] If codec is absent, it is assumed to be "null"."
+	#[serde(rename = "avro.codec", default)]
 	codec: CompressionCodec,
 	#[serde(flatten)]
 	user_metadata: M,
